@@ -559,9 +559,10 @@ func (m *Machine) Nd(name, kind string, width int) *smt.Term {
 		m.ndVars = append(m.ndVars, NdVar{Name: name, Kind: kind, Term: t})
 		return t
 	}
-	t = m.St.Var(name, smt.Sort(width))
+	t = m.St.Var(fmt.Sprintf("%s@%d", name, width), smt.Sort(width))
 	m.ndVars = append(m.ndVars, NdVar{Name: name, Kind: kind, Term: t})
 	if m.model != nil {
+		name := t.Name
 		if _, ok := m.model[name]; !ok {
 			// the path condition does not mention the new variable: any value extends the model
 			nm := make(map[string]uint64, len(m.model)+1)
